@@ -124,7 +124,8 @@ func main() {
 	signers := append(append([]chain.Key{}, owners...), w.Accts[0], w.Accts[1], w.Vals[0], w.Fresh[0])
 	rcpts := []sdk.Address{w.Accts[0].Addr, w.Accts[2].Addr, owners[0].Addr, owners[1].Addr, w.Fresh[1].Addr, w.Fresh[2].Addr,
 		ak.GetModuleAddress(govTypes.DAOAccountName), ak.GetModuleAddress(authTypes.FeeCollectorName), w.Vals[1].Addr}
-	bogusKeys := []string{"pos/Bogus", "nokey", "zzz/x", "pos/MaxValidator", "pos/MaxValidatorss", "gov/ACL", ""}
+	// (no key with an unknown subspace: for its ACL owner ModifyParam calls os.Exit)
+	bogusKeys := []string{"pos/Bogus", "nokey", "pos/RelaysToTokensMultiplie", "pos/MaxValidator", "pos/MaxValidatorss", "gov/ACL", ""}
 	entropy := int64(1)
 	lines := 0
 	type planned struct {
@@ -151,8 +152,8 @@ func main() {
 				var key string
 				if r.Chance(1, 7) || len(acl) == 0 {
 					key = bogusKeys[r.Intn(len(bogusKeys))]
-				} else if r.Chance(1, 5) {
-					key = []string{"gov/acl", "gov/acl", "gov/daoOwner"}[r.Intn(3)]
+				} else if r.Chance(1, 4) {
+					key = []string{"gov/acl", "gov/acl", "gov/daoOwner", "pos/RelaysToTokensMultiplier", "pos/ServicerStakeFloorMultiplier"}[r.Intn(5)]
 				} else {
 					key = acl[r.Intn(len(acl))].Key
 				}
@@ -181,7 +182,11 @@ func main() {
 					}
 				case key == "gov/acl":
 					na := append(govTypes.ACL{}, acl...)
-					switch r.Intn(4) {
+					switch r.Intn(5) {
+					case 4: // same owners, other order (lookup must not depend on it: keys that are prefixes of other keys)
+						for i, j := 0, len(na)-1; i < j; i, j = i+1, j-1 {
+							na[i], na[j] = na[j], na[i]
+						}
 					case 0: // hand one key to another owner
 						na.SetOwner(na[r.Intn(len(na))].Key, owners[r.Intn(3)].Addr)
 					case 1: // hand gov/acl or gov/daoOwner to another owner
